@@ -16,6 +16,15 @@ pub(crate) use low_rank::LowRankMassMatrix;
 pub use low_rank::LowRankSettings;
 pub use transformation::Transformation;
 
+#[cfg(nuts_rs_verif)]
+pub mod verif_exports {
+    pub use super::adapt::{
+        DiagAdaptStrategy, DrawGradCollector, LowRankMassMatrixStrategy, MassMatrixAdaptStrategy,
+    };
+    pub use super::diagonal::DiagMassMatrix;
+    pub use super::low_rank::{LowRankMassMatrix, LowRankParts};
+}
+
 #[cfg(test)]
 mod tests {
     use std::{collections::HashMap, error::Error, fmt::Display};
